@@ -56,5 +56,5 @@ CHECK = {
             "only:future", "only:participants",
             "accepted:n=342", "accepted:n=341", "applied:rotated", "history:rotations>=2", "applied:no-change-below-two-thirds",
             "sig-slot:first-of-fork",
-            "sync:bootstrap-accepted", "sync:invalid-bootstrap-rejected", "sync:completed",, "clock:current-slot=sig-1", "clock:current-slot=sig+0"]},
+            "sync:bootstrap-accepted", "sync:invalid-bootstrap-rejected", "sync:completed", "clock:current-slot=sig-1", "clock:current-slot=sig+0"]},
     }
